@@ -157,9 +157,15 @@ def unit_scaling_backend(
                 # the inbuilt + operation is handled differently when traced. It is
                 # instead substituted for its unit scaled equivalent here.
                 if not is_residual_add:
-                    logger.info("unit scaling function: %s", node)
-                    kwargs = dict(node.kwargs, constraint=None)  # unconstrained
-                    replace_node_with_function(graph, node, U.add, kwargs=kwargs)
+                    node.meta["plain_add"] = True
+
+        # Replace the remaining adds only once all residual-adds have been identified,
+        # so that the dependency metadata refers to nodes still present in the graph
+        for node in graph.nodes:
+            if node.meta.get("plain_add", False):
+                logger.info("unit scaling function: %s", node)
+                kwargs = dict(node.kwargs, constraint=None)  # unconstrained
+                replace_node_with_function(graph, node, U.add, kwargs=kwargs)
 
         # Replace nodes marked as residual-adds with unit scaled equivalent
         for node in graph.nodes:
